@@ -18,6 +18,7 @@ pub(crate) mod prng;
 
 mod c01;
 mod c05;
+mod c07;
 mod c10;
 mod c13;
 mod c14;
@@ -43,17 +44,35 @@ fn verif_entry() {
     let n = env_u64("VERIF_N", 100);
     let path = env::var("VERIF_OUT").expect("VERIF_OUT");
     let mut out = out::Out::create(&path);
-    // keep panic messages of caught panics out of the way
-    std::panic::set_hook(Box::new(|_| {}));
-    match op.as_str() {
-        "c01" => c01::run(seed, n, &mut out),
-        "c05" => c05::run(seed, n, &mut out),
-        "c10" => c10::run(seed, n, &mut out),
-        "c13" => c13::run(seed, n, &mut out),
-        "c14" => c14::run(seed, n, &mut out),
-        "c15" => c15::run(seed, n, &mut out),
-        "sys" => sysop::run(seed, n, &mut out),
-        other => panic!("unknown VERIF_OP {}", other),
+    // keep panic messages of caught panics out of the way, but remember the last one
+    std::panic::set_hook(Box::new(|info| {
+        if let Ok(mut g) = LAST_PANIC.lock() {
+            *g = format!("{}", info);
+        }
+    }));
+    let result = std::panic::catch_unwind(std::panic::AssertUnwindSafe(|| run_op(&op, seed, n, &mut out)));
+    if result.is_err() {
+        // the operation itself unwound outside any handler call: keep what was produced and say why
+        let msg = LAST_PANIC.lock().map(|g| g.clone()).unwrap_or_default();
+        out.stat("ABORT", &msg.replace('\n', " "));
     }
     out.finish();
+}
+
+lazy_static::lazy_static! {
+    static ref LAST_PANIC: std::sync::Mutex<String> = std::sync::Mutex::new(String::new());
+}
+
+fn run_op(op: &str, seed: u64, n: u64, out: &mut out::Out) {
+    match op {
+        "c01" => c01::run(seed, n, out),
+        "c05" => c05::run(seed, n, out),
+        "c07" => c07::run(seed, n, out),
+        "c10" => c10::run(seed, n, out),
+        "c13" => c13::run(seed, n, out),
+        "c14" => c14::run(seed, n, out),
+        "c15" => c15::run(seed, n, out),
+        "sys" => sysop::run(seed, n, out),
+        other => panic!("unknown VERIF_OP {}", other),
+    }
 }
